@@ -117,7 +117,8 @@ def rewrite_tokens(xml, which, rnd, soft_candidates=None):
         else:
             cands = [n for n in ids if soft_candidates is None or soft_candidates(n)]
             rnd.shuffle(cands)
-            soft = list(SOFT)
+            present = {tok[1] for el_, kind_ in xm.text_nodes() if kind_ == 'block' for tok in T.tokens(el_.text) if tok[0] == 'id'}
+            soft = [s_ for s_ in SOFT if s_ not in present]     # the model may use some of them already
             rnd.shuffle(soft)
             for n, s_ in zip(cands, soft):
                 mapping[n] = s_
